@@ -23,6 +23,9 @@ CHECKS = {
  "C15": dict(technique="static analysis: CFG/dominator/natural-loop and def-use (origin) rules over the MIR of pre_auth_encode; single-forwarding-call rule over every WriteBytes impl",
    text="pre_auth_encode has exactly the three writes of the spec (count, per-piece length = sum of fragment lengths, fragments) as unmodified u64::to_le_bytes / forwarded slices, in two plain forward loops with no other branch; every WriteBytes adapter (14, incl. the io::Write shim) forwards each slice once, unmodified. Piece order at call sites is decided under C03/C07. Injectivity follows mathematically.",
    ref="DESIGN.md §4 C15"),
+ "C16": dict(technique="static analysis: per-draw error-discipline rule over enumerated MIR paths (the draw's own Result must be branched on), definedness of nonce/salt/key fields in symbolic producer outputs, statics census, loop membership of retry draws",
+   text="All 39 direct draw sites: each fallible draw's own Result is tested with an Err exit before the path continues; nonce/salt/ephemeral/key positions of every producer output are full-width RNG terms with no zero-initialised or caller-controlled bytes; no static/thread_local exists in the lib crates (no caching of draws); retrying key generators redraw inside the loop. Statistical uniqueness and RNG use inside dependencies are out of reach.",
+   ref="DESIGN.md §4 C16"),
  "C08": dict(technique="static analysis: exact-length closure and validator must-pass rules over enumerated decode paths, symbolic encode∘decode composition with a table of inverse library pairs, component-wise Clone check, public-key derivation terms",
    text="For every HasKey impl (6 backends x 5 kinds): decode is closed by the kind's exact width, encode(decode(b)) = b symbolically (no canonicalising/truncating decoder), each success path passes the key type's validating constructor, Ed25519 secret decoders re-derive and compare the public half, manual Clone impls are component-wise, public_key() is the scheme's public key of that secret and equals the embedded half. One known finding (D7: libsodium public keys are length-checked only) is listed in known_findings.json.",
    ref="DESIGN.md §4 C08"),
